@@ -161,7 +161,21 @@ def check_not_found_helper(prog, rep, slicer):
                 if const_value(s[2]['o']['k']) is True:
                     true_sites.append(bi)
     if not true_sites:
-        rep.unproven('R2', 'is_not_found_error_kind/true-site', g.file, 'no `true` result found')
+        # the predicate written as one expression: `matches!(e.kind(), NotFound)` (a per-variant table) or `e.kind() == NotFound`
+        from .lib.paths import strip as _strip
+        rv = _strip(slicer.local(g, 0))
+        is_kind = lambda x: _strip(x)[0] == 'call' and _strip(x)[1] == 'std::io::Error::kind' and _strip(_strip(x)[2][0])[0] == 'param'
+        is_nf = lambda x: _strip(x)[0] == 'agg' and _strip(x)[2] == 'NotFound' and (_strip(x)[1] or '').endswith('io::ErrorKind')
+        if rv[0] == 'select' and is_kind(rv[1]):
+            trues = sorted(n for names, val in rv[3] if val == ('const', True) for n in names)
+            others = all(val in (('const', True), ('const', False)) for _, val in rv[3])
+            rep.check(trues == ['NotFound'] and others, 'R2', 'is_not_found_error_kind/kind', '%s:%d' % (g.file, g.line),
+                      'true is returned exactly for ErrorKind::NotFound of the parameter', 'the not-found predicate is true for %s' % trues)
+        elif rv[0] == 'call' and rv[1].endswith('::eq') and len(rv[2]) == 2 and \
+                ((is_kind(rv[2][0]) and is_nf(rv[2][1])) or (is_kind(rv[2][1]) and is_nf(rv[2][0]))):
+            rep.holds('R2', 'is_not_found_error_kind/kind', '%s:%d' % (g.file, g.line), 'the predicate is kind(param) == ErrorKind::NotFound')
+        else:
+            rep.unproven('R2', 'is_not_found_error_kind/true-site', g.file, 'no `true` result found and the predicate is not a recognised single expression: ' + vstr(rv)[:100])
     for bi in true_sites:
         conds = conditions(g, bi, slicer)
         good = [c for c in conds if c.kind == 'variant' and c.outcome == frozenset({'NotFound'})
